@@ -86,7 +86,10 @@ Definition scalar_eqb (a b : scalar) : bool :=
 Inductive lkind :=
 | LIface    (* []interface{} *)
 | LKnown    (* []string []int []int32 []int64 []uint []uint32 []uint64 *)
-| LOther.   (* any other slice or array type except []byte *)
+| LOther    (* any other slice or array type except []byte *)
+| LU8.      (* a slice or array whose element type is a NAMED type of kind uint8 (type Level uint8;
+               []Level, [2]Level): a list for AddVar (element type is not uint8 itself), but
+               "Elem().Kind() == Uint8" for Expr.Build / NamedExpr.Build / BuildCondition's map arm *)
 
 Inductive cmpop := OEq | ONeq | OGt | OGte | OLt | OLte | OLike | ONotLike.
 Inductive ckind := KWh | KNot | KOr.
@@ -400,6 +403,7 @@ Fixpoint bval (e : tinfo) (v : val) {struct v} : pieces :=
     mk_argr (bval e x)
       (match x with
        | VList _ [] => [PV SNull]
+       | VList LU8 _ => bval e x         (* Elem().Kind() == Uint8: handed whole to AddVar, which expands it *)
        | VList _ l => sepc [PC ","] (map (bval e) l)
        | VS s => scalar_par s
        | _ => bval e x
